@@ -107,10 +107,15 @@ Recv ==
         ELSE UNCHANGED ph
   /\ UNCHANGED <<cfg, wv, hl, up, c2s, srv, left>>
 
-MNext == /\ \/ \E new \in CfgSets : Reload(new)
-            \/ \E n \in Names : CheckHealthy(n) \/ CheckUnhealthy(n) \/ Flip(n) \/ Report(n)
-            \/ Server \/ Recv
-         /\ UNCHANGED hvars      \* the monitor's counters are FrpcProxies' own machine; here only its verdict (Report) matters
+\* the monitor's counters are FrpcProxies' own machine; here only its verdict (Report) matters
+H(A) == A /\ UNCHANGED hvars
+MNext == \/ \E new \in CfgSets : H(Reload(new))
+         \/ \E n \in Names : H(CheckHealthy(n))
+         \/ \E n \in Names : H(CheckUnhealthy(n))
+         \/ \E n \in Names : H(Flip(n))
+         \/ \E n \in Names : H(Report(n))
+         \/ H(Server)
+         \/ H(Recv)
 MSpec == /\ MInit /\ HInit /\ [][MNext]_<<mvars, hvars>>
          /\ \A n \in Names : WF_mvars(CheckHealthy(n)) /\ WF_mvars(CheckUnhealthy(n)) /\ WF_mvars(Report(n))
          /\ WF_mvars(Server) /\ WF_mvars(Recv)
